@@ -310,12 +310,14 @@ example : eraseCnl (requestInfo [] none (canon (view exStd))) =
   Corruptions that only change letter case of a name or replace SP by HT (or vice versa) are renderings of the
   same items: `digest_rendering_invariant`.
 
-  NOT proved, and false for the code as it is (`corruption_structural_witness`, hence the name `corruption_local_*`
-  for the parts and no theorem `corruption_local` for all positions/bytes): replacement bytes that re-bracket the
-  string — a DQUOTE or a backslash that breaks a quoted-pair inside a quoted value, SP / HT / ',' inside an
-  unquoted value, the DQUOTEs themselves, and positions outside values ("=", commas, names).  For those only the
-  parameters rendered *before* the corrupted one are protected by the left-to-right scan (checked dynamically:
-  `corruption_rule` in tools/props/C14.py).
+  NOT proved (`corruption_structural_witness`, hence the names `corruption_local_*` for the parts and no theorem
+  `corruption_local` for all positions/bytes): replacement bytes that re-bracket the string — a DQUOTE or a backslash
+  that breaks a quoted-pair inside a quoted value, a DQUOTE at the first position of an unquoted value, SP / HT / ','
+  inside an unquoted value, the DQUOTEs themselves, and positions outside values ("=", commas, names).  Since fix F35
+  a DQUOTE inside an unquoted value is refused, which closes the continuation `ab" ,nonce=evil"`; what remains false
+  on the code is re-bracketing that ends in the unknown-element skipper (it accepts any text with balanced DQUOTE
+  parts; witness (3), finding F36) and the inherent case (2) where the corrupted string is itself in the grammar.
+  Checked dynamically without waiver: `corruption_rule` in tools/props/C14.py.
 -/
 
 theorem withValue_wf_quoted (e : Elem) (he : e.wf = true) (v' : Bytes) (esc' : List Bool) (hv : ∀ c ∈ v', c ≠ 0) :
@@ -384,10 +386,10 @@ theorem corruption_rejected_quoted_nul (lead : Bytes) (pre : List Elem) (e : Ele
     rw [this]; rfl
 
 /-- Corruption inside an unquoted value: a replacement byte that may stand in such a value (anything but
-    NUL SP HT , ; — and not a DQUOTE at the first position) changes only that parameter. -/
+    NUL SP HT , ; DQUOTE) changes only that parameter. -/
 theorem corruption_local_token (lead : Bytes) (pre : List Elem) (e : Elem) (post : List Elem) (t : UInt8) (ht : t ≠ 59)
     (hwf : WF lead (pre ++ e :: post) = true) (hf : e.r.form = .token)
-    (j : Nat) (b : UInt8) (hj : j < e.item.value.length) (hb : tokByte b = true) (h0 : j = 0 → b ≠ 34) :
+    (j : Nat) (b : UInt8) (hj : j < e.item.value.length) (hb : tokByte b = true) :
     ∃ d, parseDigest ((render lead (pre ++ e :: post)).set ((valPrefix lead pre e).length + j) b) (some t) = .ok d ∧
       (∀ k, (d.slots k).map paramUnq = view (pre ++ e.withValue (e.item.value.set j b) .token :: post) k) ∧
       (∀ k, k ≠ e.item.slot → (d.slots k).map paramUnq = view (pre ++ e :: post) k) ∧
@@ -405,8 +407,10 @@ theorem corruption_local_token (lead : Bytes) (pre : List Elem) (e : Elem) (post
     · rw [h]; exact hb
   have hhead : (e.item.value.set j b).head? ≠ some 34 := by
     rw [hv]
+    have hb34 : b ≠ 34 := by
+      intro h; rw [h] at hb; exact absurd hb (by decide)
     cases j with
-    | zero => simpa using h0 rfl
+    | zero => simpa using hb34
     | succ j => simpa using hc
   have hne : e.item.value.set j b ≠ [] := by
     intro h
@@ -422,10 +426,11 @@ theorem corruption_local_token (lead : Bytes) (pre : List Elem) (e : Elem) (post
   · intro hk; rw [hqq, view_withValue _ _ _ _ _ _ (Ne.symm hk)]
   · intro hk; rw [hu, view_withValue _ _ _ _ _ _ (Ne.symm hk)]
 
-/-- … NUL and ';' are rejected, at every position of the value. -/
+/-- … NUL and ';' are rejected at every position of the value, and so is a DQUOTE at every position but the
+    first (since fix F35; at the first position it opens a quoted-string, see `corruption_structural_witness`). -/
 theorem corruption_rejected_token (lead : Bytes) (pre : List Elem) (e : Elem) (post : List Elem) (t : UInt8) (ht : t ≠ 59)
     (hwf : WF lead (pre ++ e :: post) = true) (hf : e.r.form = .token)
-    (j : Nat) (b : UInt8) (hj : j < e.item.value.length) (hb : b = 0 ∨ b = 59) :
+    (j : Nat) (b : UInt8) (hj : j < e.item.value.length) (hb : b = 0 ∨ b = 59 ∨ (b = 34 ∧ j ≠ 0)) :
     parseDigest ((render lead (pre ++ e :: post)).set ((valPrefix lead pre e).length + j) b) (some t) = .reject := by
   have he : e.wf = true := by
     simp only [WF, Bool.and_eq_true, List.all_append, List.all_cons] at hwf; exact hwf.2.2.1
@@ -436,14 +441,20 @@ theorem corruption_rejected_token (lead : Bytes) (pre : List Elem) (e : Elem) (p
     rw [hv]
     cases j with
     | zero =>
-      refine ⟨b, r ++ valSuffix e post, by simp, ?_, ?_⟩ <;> rcases hb with h | h <;> subst h <;> decide
+      refine ⟨b, r ++ valSuffix e post, by simp, ?_, ?_⟩ <;> rcases hb with h | h | h <;>
+        first | (exact absurd rfl h.2) | (subst h; decide)
     | succ j =>
       simp only [List.all_cons, Bool.and_eq_true, tokByte, ne_eq, decide_eq_true_eq] at hall
       exact ⟨c, r.set j b ++ valSuffix e post, by simp, by simp [isWs, hall.1.1.1.1.2, hall.1.1.1.2], hc⟩
   obtain ⟨c', r', hcr, hws, h34⟩ := hhead
   apply parse_value_reject lead pre e post t ht hwf
   · exact ⟨c', r', hcr, hws⟩
-  · have := scanTok_bad t b hb e.item.value j (valSuffix e post) (by rw [hv]; exact hall) hj
+  · have hb' : b = 0 ∨ b = 59 ∨ b = 34 := by
+      rcases hb with h | h | h
+      · exact Or.inl h
+      · exact Or.inr (Or.inl h)
+      · exact Or.inr (Or.inr h.1)
+    have := scanTok_bad t b hb' e.item.value j (valSuffix e post) (by rw [hv]; exact hall) hj
     rw [hcr] at this ⊢
     simp only [valueAt, h34, if_false, this]
     rfl
@@ -457,18 +468,35 @@ example : WF [] (exCorPre ++ exCorE :: []) = true ∧ exCorE.r.form = .quoted []
     2 < (escRender [] exCorE.item.value).length ∧ QBody ((escRender [] exCorE.item.value).set 2 89) = true := by decide
 example : WF [] (exCorPre ++ exCorTok :: []) = true ∧ exCorTok.r.form = .token ∧ 2 < exCorTok.item.value.length ∧ tokByte 89 = true := by decide
 
-/-- What the two `corruption_local_*` theorems leave out does happen on the code as it is (the scanner accepts a
-    DQUOTE and '=' inside an unquoted value): one replaced byte *inside the value of realm* re-brackets the
-    string and the unrelated parameter `nonce` changes from `good` to `evil"` resp. `evil`.
-    (1) `nonce="good",realm="abX ,nonce=evil"` with X := DQUOTE, (2) `nonce="good",realm=abXnonce=evil` with X := ','. -/
+/-- second example: `nonce="good",realm="abX ,nonce=evil,",opaque="\""`, byte 22 is the `X` -/
+def exCorE2 : Elem := ⟨⟨kRealm, [97, 98, 88, 32, 44, 110, 111, 110, 99, 101, 61, 101, 118, 105, 108, 44]⟩, ⟨[], [], [], .quoted [], [], []⟩⟩
+def exCorPost2 : List Elem := [⟨⟨kOpaque, [34]⟩, ⟨[], [], [], .quoted [], [], []⟩⟩]
+
+/-- What the `corruption_*` theorems leave out, on the code as it is after fix F35 (a DQUOTE inside an unquoted
+    value is refused):
+    (1) `nonce="good",realm="abX ,nonce=evil"` with X := DQUOTE — before the fix accepted with nonce = `evil"` —
+        is rejected.
+    (2) `nonce="good",realm=abXnonce=evil` with X := ',' gives `nonce="good",realm=ab,nonce=evil`: accepted, nonce
+        changes from `good` to `evil`.  This one is inherent: the corrupted string is itself a credential string of
+        the grammar and the reference reader reports the same nonce; no recipient can tell.  (The uncorrupted
+        string is outside the RFC grammar — '=' in a token — but accepted by the scanner.)
+    (3) `nonce="good",realm="abX ,nonce=evil,",opaque="\""` with X := DQUOTE: the quoted-string ends early, `nonce=evil`
+        becomes a parameter, and the rest `",opaque="\""` is skipped as an unknown element (the skipper accepts any
+        text with balanced DQUOTE parts): accepted, nonce changes and opaque disappears.  The corrupted string is
+        NOT in the grammar (reference reader: none); needs a later value containing an escaped DQUOTE. -/
 theorem corruption_structural_witness :
     (parseDigest (render [] (exCorPre ++ [exCorE])) (some 0)).map (fun d => (d.slots kNonce).map paramUnq) = .ok (some [103, 111, 111, 100]) ∧
-    (parseDigest ((render [] (exCorPre ++ [exCorE])).set 22 34) (some 0)).map (fun d => (d.slots kNonce).map paramUnq) =
-      .ok (some [101, 118, 105, 108, 34]) ∧
+    (parseDigest ((render [] (exCorPre ++ [exCorE])).set 22 34) (some 0)).map (fun d => (d.slots kNonce).map paramUnq) = .reject ∧
     (parseDigest (render [] (exCorPre ++ [exCorTok])) (some 0)).map (fun d => (d.slots kNonce).map paramUnq) = .ok (some [103, 111, 111, 100]) ∧
     (parseDigest ((render [] (exCorPre ++ [exCorTok])).set 21 44) (some 0)).map (fun d => (d.slots kNonce).map paramUnq) =
-      .ok (some [101, 118, 105, 108]) := by decide
-
+      .ok (some [101, 118, 105, 108]) ∧
+    Ref.value ((render [] (exCorPre ++ [exCorTok])).set 21 44) kNonce = some [101, 118, 105, 108] ∧
+    WF [] (exCorPre ++ exCorE2 :: exCorPost2) = true ∧
+    (parseDigest (render [] (exCorPre ++ exCorE2 :: exCorPost2)) (some 0)).map (fun d => ((d.slots kNonce).map paramUnq, (d.slots kOpaque).map paramUnq)) =
+      .ok (some [103, 111, 111, 100], some [34]) ∧
+    (parseDigest ((render [] (exCorPre ++ exCorE2 :: exCorPost2)).set 22 34) (some 0)).map (fun d => ((d.slots kNonce).map paramUnq, (d.slots kOpaque).map paramUnq)) =
+      .ok (some [101, 118, 105, 108], none) ∧
+    Ref.parse ((render [] (exCorPre ++ exCorE2 :: exCorPost2)).set 22 34) = none := by decide
 
 /-! ## Agreement with a grammar-level reference reader, for all byte strings -/
 
@@ -506,8 +534,8 @@ example : Ref.value [110, 99, 61, 49, 44, 78, 67, 61, 34, 92, 50, 34] kNc = some
 /-- The converse does not hold: `parse_dauth_params` accepts strings outside the grammar (for these the reference
     reader, like every RFC-conforming recipient, has no answer).  Witnesses, one per kind of leniency, each
     rejected by the reference reader and accepted by the model of the C scanner (and by the real code: corpus/auth):
-    (1) `nc=` empty unquoted value, (2) `realm=a"b` DQUOTE inside an unquoted value, (3) `realm=a=b` '=' inside an
-    unquoted value, (4) `foo` unknown element without "=", (5) `fo o="x` + `"y` quoted parts anywhere in an unknown
+    (1) `nc=` empty unquoted value, (2) — (`realm=a"b`, DQUOTE inside an unquoted value: refused since fix F35, stated
+    here as rejected), (3) `realm=a=b` '=' inside an unquoted value, (4) `foo` unknown element without "=", (5) `fo o="x` + `"y` quoted parts anywhere in an unknown
     element, (6) `realm="a` + 0x01 + `"` control character inside a quoted-string.
     This is the soundness half `digest_accepts_only_grammar` in `_partial` form: what is missing is the exact
     characterisation of the accepted language (a lenient grammar: token values = any bytes but NUL SP HT , ; possibly
@@ -515,7 +543,7 @@ example : Ref.value [110, 99, 61, 49, 44, 78, 67, 61, 34, 92, 50, 34] kNc = some
 theorem digest_accepts_beyond_grammar_witness :
     (Ref.parse [110, 99, 61] = none ∧ (parseDigest [110, 99, 61] (some 0)).map (fun d => (d.slots kNc).map paramUnq) = .ok (some [])) ∧
     (Ref.parse [114, 101, 97, 108, 109, 61, 97, 34, 98] = none ∧
-      (parseDigest [114, 101, 97, 108, 109, 61, 97, 34, 98] (some 0)).map (fun d => (d.slots kRealm).map paramUnq) = .ok (some [97, 34, 98])) ∧
+      (parseDigest [114, 101, 97, 108, 109, 61, 97, 34, 98] (some 0)).map (fun d => (d.slots kRealm).map paramUnq) = .reject) ∧
     (Ref.parse [114, 101, 97, 108, 109, 61, 97, 61, 98] = none ∧
       (parseDigest [114, 101, 97, 108, 109, 61, 97, 61, 98] (some 0)).map (fun d => (d.slots kRealm).map paramUnq) = .ok (some [97, 61, 98])) ∧
     (Ref.parse [102, 111, 111] = none ∧ (parseDigest [102, 111, 111] (some 0)).map (fun _ => ()) = .ok ()) ∧
